@@ -242,9 +242,16 @@ def _build(fmt, total, place, placed):
         # the builder takes a dense window list; use a sparse window description instead: one build per call with the
         # window spanning all units would be too large, so the states list is built only over used units via window_at=0
         states, slots = _dense_lists(placed, total, "N", "U", cap=None, fmt=fmt)
+        # the units around the middle boundary are compressed clusters: their data lies behind the data area, i.e. beyond
+        # 2^32 bytes / 2^32 sectors on the placements that put the data there
+        mid = total // 2
+        for u in (mid, mid + 1):
+            if u in states.items and place != "top":  # (the host-offset field of a compressed descriptor has 54 bits)
+                states.items[u] = "C"
+                slots.pop(u, None)
         tb, db = {"low": (None, None), "b32": ((4 << 30) + (2 << 20), (8 << 30) + (64 << 20)),
                   "s32": ((4 << 30) + (2 << 20), (1 << 41) + (64 << 20)), "top": ((1 << 55) - (1 << 30), 1 << 54)}[place]
-        img, _ = B.build(states, slots, 16, 3, total * unit, 0, total, table_base=tb, data_base=db)
+        img, _ = B.build(states, slots, 16, 3, total * unit, 0, total, table_base=tb, data_base=db, comp_pack=True)
         model = B.model(states, 16, total * unit, 0, total)
         return img, model, lambda fh: QCow2(fh)
     if fmt == "vmdk-hosted":
